@@ -427,6 +427,11 @@ class Runner(IOOpsMixin):
                     self.verdict("O-frame", "C15", client, i, f"file {k} changed although the operation never opened it for writing")
                 elif allowed is not None and kind in ("calc.write", "cli.run") and k not in allowed:
                     self.verdict("O-frame", "C15", client, i, f"{kind} changed {k}, which is not among the files its keywords denote", expected=sorted(allowed))
+            if allowed is not None and kind in ("calc.write", "cli.run"):
+                for k in sorted(allowed - wset):
+                    if k not in after:
+                        self.verdict("O-frame", "C14", client, i, f"{kind} completed but {k}, which its keywords denote, is not in the working directory the client is in")
+                        break
             if kind in READ_ONLY_OPS and (changed or wset):
                 self.verdict("O-frame", "C14", client, i, f"read-only operation {kind} wrote {sorted(wset | set(changed))}")
             for k in changed:
